@@ -212,6 +212,16 @@ void varintAdaptiveAnalyze(const uint64_t *values, size_t count,
 
     /* Count unique values (may be approximate for large arrays) */
     stats->uniqueCount = varintAdaptiveCountUnique(values, count);
+    if (stats->isSorted) {
+        /* Ascending input: distinct values can be counted exactly in place */
+        size_t unique = 1;
+        for (size_t i = 1; i < count; i++) {
+            if (values[i] != values[i - 1]) {
+                unique++;
+            }
+        }
+        stats->uniqueCount = unique;
+    }
     stats->uniqueRatio = (float)stats->uniqueCount / (float)count;
 
     /* Compute delta statistics */
@@ -263,11 +273,11 @@ varintAdaptiveSelectEncoding(const varintAdaptiveDataStats *stats) {
 
     /* 2. Dense sets in bitmap range → Bitmap encoding
      * IMPORTANT: Bitmap is for SETS (unique values only), not sequences
-     * Only use if all values are unique or nearly unique
-     * AND data is already sorted (since BITMAP returns values in sorted order)
+     * Only use if all values are unique AND already in ascending order
+     * (BITMAP returns each member once, in ascending order)
      */
-    if (stats->fitsInBitmapRange && stats->uniqueRatio > 0.9f &&
-        (stats->isSorted || stats->isReverseSorted)) {
+    if (stats->fitsInBitmapRange && stats->isSorted &&
+        stats->uniqueCount == stats->count) {
         /* All or nearly all values are unique - bitmap might work */
         if (stats->range > 0 && stats->count < 10000) {
             float density = (float)stats->count / (float)stats->range;
